@@ -194,7 +194,8 @@ def check_property(prop, tier, seed):
             'checker_cmd': f'./check {prop} --tier {tier}',
             'functions_under_contract': fn_status,
             'functions_proved': proved_fns,
-            'assumed_contracts_at_call_sites': sorted({c for r in pres for c in r.get('assumed_contracts', [])}),
+            'callee_contracts_not_discharged_in_this_run': {c: how for r in pres for c, how in r.get('callee_contracts', {}).items()
+                                                             if c not in proved_fns},
             'functions_bounded_only': spec.get('bounded_only', []),
             'bridge_lemmas': [{'file': l['file'], 'accepted_by_lean': l['ok'], 'theorems': l['theorems'], 'secs': l['secs']} for l in lres],
             'trusted_base': spec.get('trusted_base', []) + COMMON_ASSUMPTIONS['trusted_base'],
